@@ -21,7 +21,7 @@ theorems as the hypothesis that the decoded key is Equal to a stored one.
 **Go maps.** `originalKeys map[HashMapKey][]T` is an association list with distinct hashes whose
 order stands for the iteration order; the response maps `map[K]V` are association lists under
 Go's own key equality `goEq` on `K` (pointer identity for record keys, `==` for primitives); an
-assignment `m[k] = v` to a present key keeps the *old* key object and replaces the value. -/
+assignment `m[k] = v` to a present key replaces the value and overwrites the key (see `mapSet`). -/
 namespace Restli.KeySet
 open Restli
 
@@ -29,7 +29,7 @@ structure Key (α : Type) where
   /-- identity tag — ignored by equality, hashing and encoding -/
   id : Nat
   val : α
-deriving Repr
+deriving Repr, DecidableEq
 
 /-- `genericBatchKeySet.equals` / `.hash` (the latter already through `.MapKey()`) -/
 structure KeyOps (α : Type) where
@@ -42,6 +42,7 @@ structure GenericSet (α : Type) where
   /-- `originalKeys`; list order = map iteration order -/
   buckets : List (UInt32 × List (Key α))
   keyCount : Nat
+deriving Repr, DecidableEq
 
 def GenericSet.empty {α : Type} : GenericSet α := ⟨[], 0⟩
 
@@ -104,6 +105,7 @@ open Restli.Equals in
 (a NaN is never found, so every NaN inserted is a new entry) -/
 structure PrimSet where
   keys : List (Key Prim)
+deriving Repr, DecidableEq
 
 open Restli.Equals in
 def PrimSet.addKey (s : PrimSet) (t : Key Prim) : Option PrimSet :=
@@ -128,6 +130,8 @@ inductive ErrClass where
   | badValue
   /-- `results` (the one required field) absent -/
   | missingResults
+  /-- a member that is none of the three fields, where that is an error (v2: `NoSuchFieldErr`) -/
+  | noSuchField
 deriving Repr, DecidableEq
 
 /-- `LocateOriginalKeyFromReader` with the codec abstracted as `decode` -/
@@ -140,11 +144,13 @@ def locateFromReader {α : Type} (decode : Bytes → Option (Key α))
     | some o => .ok o
     | none => .error .unknownKey
 
-/-- `m[k] = v` on a Go map: a present key (under Go's key equality) keeps its key object -/
+/-- `m[k] = v` on a Go map. When an equal key is present the value is replaced **and the stored key
+is overwritten by the new one** (the runtime's `NeedKeyUpdate`, true for float and string keys:
+observable exactly for `+0/−0`; for pointer keys old and new key are the same pointer anyway). -/
 def mapSet {α V : Type} (goEq : Key α → Key α → Bool) (k : Key α) (v : V) :
     List (Key α × V) → List (Key α × V)
   | [] => [(k, v)]
-  | (k', v') :: rest => if goEq k' k then (k', v) :: rest else (k', v') :: mapSet goEq k v rest
+  | (k', v') :: rest => if goEq k' k then (k, v) :: rest else (k', v') :: mapSet goEq k v rest
 
 /-- the `reader.ReadMap(func(valueReader, rawKey) …)` loop of one of the three fields; an entry is
 `(rawKey, value)` with `none` = the value does not decode -/
@@ -163,7 +169,8 @@ def fillField {α V : Type} (locator : Bytes → Except ErrClass (Key α))
 /-- which of the response's fields a JSON member is -/
 inductive FieldTag where
   | results | statuses | errors
-  /-- any other name: `NoSuchFieldErr` (v2) / `Skip` (root) — ignored -/
+  /-- any other name: v2 returns `NoSuchFieldErr`, which nothing consumes — the whole response is
+  rejected; the root module skips the value -/
   | other
 deriving Repr, DecidableEq
 
@@ -171,11 +178,15 @@ structure FieldNames where
   results : String
   statuses : String
   errors : String
+  /-- is a member with any other name an error (v2) or skipped (root)? -/
+  strict : Bool
 
 def fieldNamesV2 : FieldNames :=
-  ⟨Restli.Gen.batchResultsField, Restli.Gen.batchStatusesField, Restli.Gen.batchErrorsField⟩
+  ⟨Restli.Gen.batchResultsField, Restli.Gen.batchStatusesField, Restli.Gen.batchErrorsField,
+   Restli.Gen.batchUnknownFieldIsError⟩
 def fieldNamesRoot : FieldNames :=
-  ⟨Restli.GenRoot.batchResultsField, Restli.GenRoot.batchStatusesField, Restli.GenRoot.batchErrorsField⟩
+  ⟨Restli.GenRoot.batchResultsField, Restli.GenRoot.batchStatusesField, Restli.GenRoot.batchErrorsField,
+   Restli.GenRoot.batchUnknownFieldIsError⟩
 
 /-- the `switch field` of `UnmarshalWithKeyLocator` -/
 def FieldNames.tag (N : FieldNames) (name : String) : FieldTag :=
@@ -191,35 +202,36 @@ structure BatchResponse (α V : Type) where
   results : Option (List (Key α × V)) := none
   statuses : Option (List (Key α × V)) := none
   errors : Option (List (Key α × V)) := none
+deriving Repr, DecidableEq
 
 /-- the `ReadRecord` loop over the document's members in document order. A repeated field
 re-runs `b.X = make(map…)`, i.e. starts again from the empty map. -/
-def unmarshalFields {α V : Type} (locator : Bytes → Except ErrClass (Key α))
+def unmarshalFields {α V : Type} (strict : Bool) (locator : Bytes → Except ErrClass (Key α))
     (goEq : Key α → Key α → Bool) :
     BatchResponse α V → List (FieldTag × List (Bytes × Option V)) → Except ErrClass (BatchResponse α V)
   | b, [] => .ok b
   | b, (tag, entries) :: rest =>
     match tag with
-    | .other => unmarshalFields locator goEq b rest
+    | .other => if strict then .error .noSuchField else unmarshalFields strict locator goEq b rest
     | .results =>
       match fillField locator goEq [] entries with
       | .error e => .error e
-      | .ok m => unmarshalFields locator goEq { b with results := some m } rest
+      | .ok m => unmarshalFields strict locator goEq { b with results := some m } rest
     | .statuses =>
       match fillField locator goEq [] entries with
       | .error e => .error e
-      | .ok m => unmarshalFields locator goEq { b with statuses := some m } rest
+      | .ok m => unmarshalFields strict locator goEq { b with statuses := some m } rest
     | .errors =>
       match fillField locator goEq [] entries with
       | .error e => .error e
-      | .ok m => unmarshalFields locator goEq { b with errors := some m } rest
+      | .ok m => unmarshalFields strict locator goEq { b with errors := some m } rest
 
 /-- `UnmarshalWithKeyLocator(reader, keys)` with `keys != nil`: fields in document order, then
 `ReadRecord`'s required-field check (`results`). -/
-def unmarshalWithKeyLocator {α V : Type} (locator : Bytes → Except ErrClass (Key α))
+def unmarshalWithKeyLocator {α V : Type} (strict : Bool) (locator : Bytes → Except ErrClass (Key α))
     (goEq : Key α → Key α → Bool) (doc : List (FieldTag × List (Bytes × Option V))) :
     Except ErrClass (BatchResponse α V) :=
-  match unmarshalFields locator goEq {} doc with
+  match unmarshalFields strict locator goEq {} doc with
   | .error e => .error e
   | .ok b => if doc.any (fun f => f.1 == .results) then .ok b else .error .missingResults
 
@@ -229,6 +241,7 @@ def unmarshalWithKeyLocator {α V : Type} (locator : Bytes → Except ErrClass (
 structure ComplexKey (κ π : Type) where
   key : κ
   params : Option π
+deriving Repr, DecidableEq
 
 /-- `ComplexKeyEquals(other) = k.Key.Equals(&other.Key)`, `ComputeComplexKeyHash() =
 k.Key.ComputeHash()`: the key part only. -/
